@@ -547,3 +547,25 @@ Section TotalForce.
         :: tf_trace_routed late lagged sub (Some (s, (fb, fba))) (tf_end_routed late sub fb fba fold) r
     end.
 End TotalForce.
+
+(* ---- hidden Jacobian force (hideJacobian of an ABF bias) in colvar::update_forces_energy ------------------------
+   f = 0; f += fb;  if (f_cv_hide_Jacobian && f_cv_apply_force) f -= fj * real(time_step_factor);  ...  f += fb_actual.
+   The variable is evaluated at multiples of its factor n only; its biases (same factor, as colvarbias_abf::init
+   demands) hand it n * F.  A history element = (awake, sum of the biases' instantaneous forces F, fb_actual part Fa,
+   Jacobian force fj) per step; [scaled] = true is the code, false the variant that subtracts fj once (seed C08_6). *)
+Section HiddenJacobian.
+  Context {T : Type} (O : NumOps T).
+
+  Definition jac_force (scaled : bool) (n : Z) (hide apply : bool) (fb fba fj : T) : T :=
+    let f1 := nadd O (n0 O) fb in
+    let f2 := if hide && apply then nsub O f1 (if scaled then nmul O fj (nofZ O n) else fj) else f1 in
+    nadd O f2 fba.
+
+  (* one module step of a variable with factor n whose biases have the same factor *)
+  Definition jac_step (scaled : bool) (n : Z) (hide apply : bool) (e : bool * (T * (T * T))) : T :=
+    let '(awake, (F, (Fa, fj))) := e in
+    if awake then jac_force scaled n hide apply (nmul O (nofZ O n) F) (nmul O (nofZ O n) Fa) fj else n0 O.
+
+  Definition jac_trace (scaled : bool) (n : Z) (hide apply : bool) (h : list (bool * (T * (T * T)))) : list T :=
+    map (jac_step scaled n hide apply) h.
+End HiddenJacobian.
